@@ -51,8 +51,38 @@ def extra_fn(spec, doc, ok, out):
     return rt.sx_list(str(x) for x in line_bounds(spec, doc))
 
 
+def directed(g):
+    """Shapes the random stream rarely produces: uniform multi-line rows; one text repeated under different sizes."""
+    r = g.r
+    W = 6.0
+    n = r.randint(4, 12)
+    if r.random() < 0.5:
+        h = r.choice([2, 2, 3, 4])
+        cw = W / 2
+        rows = [[sized_text(r, cw, h, f"#{i}#"), r.choice(["a", "b", ""])] for i in range(n)]
+        spec = {"df": {"cols": ["id", "c0"], "rows": rows}, "body": {}, "page": {"nrow": r.randint(h + 2, 3 * h + 4), "col_width": W},
+                "headers": [{"text": ["H id", "H c0"]}], "kind": "single", "strategy": "plain", "header_mode": "explicit"}
+    else:
+        cw = W / 3
+        rows = []
+        for i in range(n):
+            t = sized_text(r, cw, 1, r.choice(["mean", "dose", "visit"]))
+            rows.append([f"#{i}#", t, t])
+        small, large = r.choice([(8, 20), (9, 24), (6, 16)])
+        if r.random() < 0.5:
+            sizes = [[9, small, large]]                      # per column: the small occurrence is measured first
+        else:
+            sizes = [[9, small, small] if i % 2 == 0 else [9, large, large] for i in range(n)]   # per row
+        spec = {"df": {"cols": ["id", "c0", "c1"], "rows": rows}, "body": {"text_font_size": sizes},
+                "page": {"nrow": r.randint(4, 10), "col_width": W}, "headers": [{"text": ["H id", "H c0", "H c1"]}],
+                "kind": "single", "strategy": "plain", "header_mode": "explicit"}
+    return spec
+
+
 def generate(g, i):
     r = g.r
+    if r.random() < 0.2:
+        return directed(g)
     strategy = r.choice(["plain", "plain", "page_by", "page_by", "subline", "subline+page_by"])
     nrows = r.choice([0, 1, 3, 6, 10, 18, 30, 60])
     hmode = r.choice(["default", "explicit", "multi", "none", "no_colheader"])
